@@ -411,6 +411,7 @@ def body(ctx):
         ctx.inconclusive.append(f"token range: {type(e).__name__}: {e}")
     try:
         request_path(ctx, ctx.load(True))
+        forwarding(ctx, ctx.load(True))
     except (Unsupported, Inconclusive) as e:
         ctx.inconclusive.append(f"request path: {type(e).__name__}: {e}")
 
@@ -478,6 +479,52 @@ def request_path(ctx, prog):
     if bad:
         ctx.report('allocation-request-path', f"open_channel request {bad[0][0]}: answered {bad[0][1]}", {'cases': [str(b_)[:200] for b_ in bad[:6]]}, REQUEST_TEST,
                    inject_into='src/io_loop/mod.rs', profiles=('dev',), hang_is_violation=True, panic_is_violation=True)
+
+
+def forwarding(ctx, prog):
+    """one level up: Connection::open_channel -> Channel0Handle::open_channel must hand the I/O thread the very argument it was given
+    (Some(0) must reach the table, which refuses it) - the obligation of C12's open_channel harness, with a native replay of its own"""
+    import c12
+    ex = c12.io_executor(ctx, prog, extra=c12.cell_summaries())
+    viol = []
+    c12.open_channel(ctx, prog, ex, viol)
+    if viol:
+        ctx.report('open-channel-forwards-the-requested-id', f"Channel0Handle::open_channel does not hand the requested id on unchanged: {str(viol[0])[:200]}", {'cases': [str(v)[:200] for v in viol[:4]]}, FORWARD_TEST,
+                   inject_into='src/io_loop/mod.rs', profiles=('dev',), hang_is_violation=True, panic_is_violation=True)
+
+
+FORWARD_TEST = r"""
+use super::*;
+#[test]
+fn verif_replay_c10_forwarding() {
+    let mut bad: Vec<String> = Vec::new();
+    for want in [Some(0u16), Some(7), None, Some(11), Some(10), Some(1)].iter().cloned() {
+        let (dtx, drx) = std::sync::mpsc::channel();
+        std::thread::spawn(move || {
+            let mut io = IoLoop::new(crate::ConnectionTuning::default()).unwrap();
+            io.inner.chan_slots.set_channel_max(10);
+            let (ch0_slot, h0) = Channel0Slot::new(4);
+            let mut ch0 = Channel0Handle::new(h0, 4096);
+            let caller = std::thread::spawn(move || { let r = ch0.open_channel(want).map(|h| h.channel_id()); std::mem::forget(ch0); r });
+            std::thread::sleep(std::time::Duration::from_millis(150));
+            let served = io.inner.allocate_channel(&ch0_slot, &io.poll).is_ok();
+            // a successful allocation is followed by Channel.Open, which nobody answers here: the caller sees the loop go away instead
+            drop(io);
+            let got = caller.join().unwrap();
+            let _ = dtx.send((served, got.map_err(|e| format!("{:?}", e))));
+        });
+        match drx.recv_timeout(std::time::Duration::from_secs(5)) {
+            Ok((served, got)) => {
+                let refused = match &got { Err(e) => e.starts_with("UnavailableChannelId") || e.starts_with("ExhaustedChannelIds"), Ok(_) => false };
+                let ok = served && match want { Some(0) | Some(11) => refused && format!("{:?}", got).contains("UnavailableChannelId"), _ => !refused };
+                if !ok { bad.push(format!("want={:?}:served={}:got={:?}", want, served, got).replace(' ', "")); }
+            }
+            Err(_) => bad.push(format!("want={:?}:HANG", want).replace(' ', "")),
+        }
+    }
+    if bad.is_empty() { println!("VERIF-REPLAY-OK"); } else { println!("VERIF-REPLAY-VIOLATION open-channel-forwards-the-requested-id {}", bad.join(";")); }
+}
+"""
 
 
 REQUEST_TEST = r"""
